@@ -19,7 +19,7 @@ import (
 func init() {
 	fw.Register(&fw.Check{
 		ID: "C08", Level: "model_checking",
-		Rule: "(i) every closed selection of 1..2 (quick) / 1..3 (thorough) pool blocks x every contiguous run of complete top-level declarations, and of complete children of every implicitly nesting directive, moved into an included file (plain, in a sub-directory next to a same-named decoy, nested to depth 2, the same file included from two places when the run repeats); oracle: same verdict and byte-identical JSON as the unsplit document; (ii) ALL file-name strings of length <= 6 (quick) / 7 (thorough) over {. / \\ a}: validator vs the sentence of the property, and every name the sentence rejects run end to end with canary files outside the project directory; (iii) include cycles of length 1..3, missing file, directory, empty file, JSIGHT in an included file (at every position of a file made of <= 3 declarations / nested INCLUDEs, and in the nested file), each at top level / inside an implicit context / inside parentheses: rejected with a diagnostic; non-trivial = accepted unsplit document or rejected-by-sentence name; distinct = distinct projects",
+		Rule:   "(i) every closed selection of 1..2 (quick) / 1..3 (thorough) pool blocks x every contiguous run of complete top-level declarations, and of complete children of every implicitly nesting directive, moved into an included file (plain, in a sub-directory next to a same-named decoy, nested to depth 2, the same file included from two places when the run repeats); oracle: same verdict and byte-identical JSON as the unsplit document; (ii) ALL file-name strings of length <= 6 (quick) / 7 (thorough) over {. / \\ a}: validator vs the sentence of the property, and every name the sentence rejects run end to end with canary files outside the project directory; (iii) include cycles of length 1..3, missing file, directory, empty file, JSIGHT in an included file (at every position of a file made of <= 3 declarations / nested INCLUDEs, and in the nested file), each at top level / inside an implicit context / inside parentheses: rejected with a diagnostic; non-trivial = accepted unsplit document or rejected-by-sentence name; distinct = distinct projects",
 		Assume: []string{"file access is observed through canary files placed beside and above the project directory (their content would show up in the catalog or change the verdict); 'unreadable' targets cannot be produced when the checks run as root"},
 		Run:    runC08, QuickCap: 8 * time.Minute, ThoroughCap: 40 * time.Minute,
 	})
